@@ -107,6 +107,31 @@ func (fr *Frame) call(c *ssa.CallCommon, instr ssa.Instruction, st *State, reach
 				return fr.dispatchCall(c, cands, args, st, reach, instr)
 			}
 			sig := c.Value.Type().Underlying().(*types.Signature)
+			// a function-typed parameter may carry a declared contract:
+			// "//@ func fv <function key>.<parameter name>"
+			if prm := paramOfFuncValue(c.Value); prm != nil && fr.cf != nil {
+				if fvc := fr.cf.Funcs["fv "+funcKey(fr.fn)+"."+prm.Name()]; fvc != nil {
+					short := prm.Name()
+					fr.calls[short] = fr.callOrd[instr]
+					if fr.fc != nil {
+						for ci := range fr.fc.CallAssert {
+							ca := &fr.fc.CallAssert[ci]
+							if ca.Callee == short && ca.K == fr.calls[short] {
+								ca.Matched = true
+								env := fr.specEnvAt(st, fmt.Sprintf("assert@call %s#%d", short, ca.K), instr.Pos())
+								for i := 0; i < sig.Params().Len() && i < len(args); i++ {
+									env.vars["arg_"+sig.Params().At(i).Name()] = args[i]
+								}
+								fr.obligeParts(fmt.Sprintf("call.%s@%d.assert%s", short, ca.K, labelSuffix(ca.C)), "call-assert", reach, env, ca.C)
+							}
+						}
+					}
+					res := fr.applyContract("function value "+short, sig, nil, fvc, fr.cf, args, st, reach, false)
+					fr.assumeNotPrivateSentinel(res, sig, reach)
+					fr.assumeAfter(short, fr.calls[short], res, st, reach)
+					return res
+				}
+			}
 			return fr.havocCall("function value "+c.Value.Name(), sig, st)
 		}
 	} else if mc, ok := c.Value.(*ssa.MakeClosure); ok {
